@@ -2,19 +2,27 @@ PROP = dict(
         coq="Properties/C04.v",
         workloads=[
             dict(name="liquidity-custody", go_test="TestC04", runner="C04",
-                 env=dict(quick=dict(VERIF_CASES=30), thorough=dict(VERIF_CASES=800))),
+                 env=dict(quick=dict(VERIF_CASES=30), thorough=dict(VERIF_CASES=700))),
+            dict(name="keeper-f1", go_test="TestC05KeeperHunt", runner="C04",
+                 env=dict(quick=dict(VERIF_CASES=2), thorough=dict(VERIF_CASES=20))),
         ],
         rule="case = (3 apps, 1-3 pairs per app, basic pools on 85% and ranged pools on 35% of the pairs; in 35% of the cases the creator withdraws the "
              "WHOLE pool-coin supply of a fresh pool in a batch of its own (supply 0, pool disabled); then 3-8 batches of 10-40 ops: 45% pool ops "
              "(deposit / withdraw / farm / unfarm / deposit-and-farm / unfarm-and-withdraw / extra pool creation by 5 liquidity providers, amounts from "
              "1 to the whole balance +1) interleaved with the C07 order stream (limit / market / market-making orders, cancels), each batch closed by the "
              "real EndBlocker and BeginBlocker, time advancing 7-20 s or 13 h so that farming queues mature); the module's own registered invariants are "
+             "the same pair / pool ids name different coins in different apps (pair definitions rotated per app), and 18% of the pool messages are CROSS-APP attempts: the "
+             "message names (app, pool id) but carries the pool coin - or, for deposits, the pair's coins - of ANOTHER app's pool with the same id, half of them sent "
+             "by the creator who holds the initial shares of every pool (must fail; nothing may change); 25% of the cases carry the order-life scenario of C07; the "
+             "supply clause is evaluated for EVERY pool whenever its supply changed or one of its requests was executed; workload keeper-f1 = the directed search of C05 (known finding C05-F1 reached through the keeper) judged by the C04 predicates: the pair escrow then holds less than the remaining offer coins "
+             "of its live orders (kf_C05_1_via_fills) and a rolled-back batch leaves requests pending for ever (kf_C05_2_stall); the module's own invariants are "
              "run after every block as a second opinion (recorded, never substituted for the predicates); non-trivial = at least one deposit/withdraw "
              "request was executed and one farm/unfarm succeeded; distinct by digest of the op kinds and result classes",
         modelled=["the matching engine (C05's subject) and the pool share arithmetic (C06's subject) enter as ENV read off the implementation's records; "
                   "the theorems hold for every ENV", "sdk.Int 256-bit overflow panics (amounts stay below 10^40)",
                   "gas, events, reward gauges (farming rewards are paid by x/rewards, outside the liquidity custody accounts)",
-                  "pool-coin denoms are encoded as 1000 + 100*app + pool in the ledger (injective for pool ids < 100; the farmed-coins clause is stated per "
+                  "pool messages carry their coin denoms (ODeposit coins, OWithdraw / OFarm / OUnfarm / OUnfarmAndWithdraw pool-coin denom): Liquidity.pool_coin_check / "
+                  "deposit_coins model ValidateMsgWithdraw / Farm / Unfarm / UnfarmAndWithdraw / Deposit", "pool-coin denoms are encoded as 1000 + 100*app + pool in the ledger (injective for pool ids < 100; the farmed-coins clause is stated per "
                   "denom, the supply / disabled clauses per pool key)",
                   "the bank keeper: SendCoins / MintCoins / BurnCoins semantics incl. the supply.Sub panic of BurnCoins"],
         assumptions=["an app's liquidity parameters are registered once before its first pair", "plain accounts only (no vesting / blocked addresses)",
